@@ -13,7 +13,17 @@ pub struct C16Prop;
 pub static C16: C16Prop = C16Prop;
 
 fn run_fe(fe: Fe, buf: BufKind, stream: &[u8]) -> Vec<Obs> {
-    fe::run_plain(fe, buf, stream, 0)
+    let mut o = fe::run_plain(fe, buf, stream, 0);
+    if fe == Fe::RdEh {
+        // the embedded-hal source has no end of input; the mock's sticky "line dead" error with
+        // nothing pending plays the part of the end
+        if let Some(last) = o.last_mut() {
+            if matches!(&last.item, Item::Io(IoKind::Other(s), 0) if *s == fe::eh_end_name()) {
+                last.item = Item::End;
+            }
+        }
+    }
+    o
 }
 
 /// the push decoder handed a buffer that still holds data (Decoder::from_buf)
@@ -53,7 +63,7 @@ impl Prop for C16Prop {
         for len in 0..=12usize {
             for tail in 0..=len.min(6) {
                 for kind in [0x00u8, 0x1b] {
-                    for fe in [Fe::Push, Fe::Streaming, Fe::RdIter, Fe::RdSlice, Fe::RdIo] {
+                    for fe in [Fe::Push, Fe::Streaming, Fe::RdIter, Fe::RdSlice, Fe::RdIo, Fe::RdEh] {
                         let mut p: Vec<u8> = (0..len - tail).map(|i| 0x31 + i as u8).collect();
                         p.extend(std::iter::repeat(kind).take(tail));
                         let mut l = LinkScn::new("C16", "directed-tails", fe, BufKind::Vec);
@@ -78,7 +88,7 @@ impl Prop for C16Prop {
     }
 
     fn gen(&self, rng: &mut Rng, tier: Tier) -> Scenario {
-        let fe = *rng.pick(&[Fe::Push, Fe::Streaming, Fe::RdIter, Fe::RdSlice, Fe::RdIo]);
+        let fe = *rng.pick(&[Fe::Push, Fe::Streaming, Fe::RdIter, Fe::RdSlice, Fe::RdIo, Fe::RdEh]);
         let default8k = fe.is_reader() && rng.chance(1, 40);
         let len = if default8k {
             *rng.pick(&[8191usize, 8192, 8193])
@@ -109,7 +119,7 @@ impl Prop for C16Prop {
             _ => return Outcome::default(),
         };
         let lm = m.len();
-        if l.fe == Fe::Decode || l.fe == Fe::RdEh {
+        if l.fe == Fe::Decode {
             return Outcome::default();
         }
         // capacities to evaluate
